@@ -209,6 +209,41 @@ def summarise(ctx, qn, policy=default_policy, oracle=None, args=None, self_term=
     return ps
 
 
+def set_memos(ctx, fn, ps):
+    """A set kept on the object that remembers FACTS about keys (`self.S.add(K)` ... `if K in self.S: skip`): the fact is established under the tests in force where
+    the key is added.  When those tests read a parameter of fn that is not part of K (the price at THIS dt was NaN), a fact about one call is applied to all
+    later calls with the same key.  -> [(field, key, missing parameters, site, condition text)] for such additions; [] when every remembered fact depends on the
+    key alone (or the set is never consulted)."""
+    params = [p_ for p_ in fn.params if p_ not in ('self', 'cls')]
+    consulted = set()
+    adds = []
+    for p in ps:
+        for e, loops, conds in nested_events(p):
+            if e.kind == 'write' and e.how == 'mut:add' and self_chain(e.loc) is not None and e.value is not None and len(e.value[2]) == 2:
+                adds.append((e, e.value[2][1], list(conds)))
+        for c, v_, _ in list(p.conds) + [c_ for e, loops, conds in nested_events(p) for c_ in conds]:
+            if c[0] == 'cmp' and c[1] == 'in' and self_chain(c[3]) is not None:
+                consulted.add(c[3][2])
+    out = []
+    for e, K, conds in adds:
+        fld = e.loc[2]
+        if fld not in consulted:
+            continue
+        kvars = {s_[1] for s_ in T.subterms(K) if s_[0] == 'var'}
+        missing = set()
+        text = []
+        for c, v_, _ in conds:
+            if c[0] == 'cmp' and c[1] == 'in' and c[3] == e.loc:
+                continue
+            m_ = {s_[1] for s_ in T.subterms(c) if s_[0] == 'var' and s_[1] in params} - kvars
+            if m_:
+                missing |= m_
+                text.append(('' if v_ else 'not ') + fmt(c)[:70])
+        if missing:
+            out.append((fld, K, sorted(missing), e.site, ' & '.join(text)[:160]))
+    return out
+
+
 def self_chain(t):
     """field names of an attribute chain rooted at self: self.a.b -> ['a', 'b']; None for anything else"""
     names = []
@@ -607,6 +642,51 @@ def discarded_results(ctx, rule, prefixes, what):
                     ctx.violation(rule, what, fn.site(s_), 'the result of .%s(...) is discarded in %s: it returns a new object and leaves %s as it was' % (
                         f_.attr, fn.qn, ast.unparse(f_.value)[:40]), key='%s|discarded|%s|%s' % (rule, fn.qn, f_.attr))
     ctx.holds(rule, what + ' (no discarded result of a value-returning builtin among %d call statements)' % n, None)
+    # a generator expression is evaluated when it is CONSUMED.  Put away in the object's state (appended to a list held in a field, assigned to a field, kept inside a
+    # tuple or record that is) it reads the objects it ranges over at whatever later time somebody iterates it - and only once.
+    CONSUMERS = {'sum', 'tuple', 'list', 'set', 'frozenset', 'dict', 'sorted', 'min', 'max', 'any', 'all', 'next', 'len', 'join', 'array', 'asarray', 'fromiter', 'Series', 'DataFrame',
+                 'Counter', 'deque', 'OrderedDict', 'extend', 'update', 'union', 'intersection', 'difference', 'fsum', 'prod', 'mean', 'median', 'reduce', 'Index', 'concat'}
+    LAZY_WRAPPERS = {'zip', 'map', 'filter', 'enumerate', 'chain', 'islice', 'reversed', 'iter', 'starmap', 'takewhile', 'dropwhile', 'accumulate'}
+    for fn in ctx.M.all_funcs():
+        if fn.parent is not None or not any(fn.path.startswith(p_) for p_ in prefixes):
+            continue
+        pm = None
+        for g in ast.walk(fn.node):
+            if not isinstance(g, ast.GeneratorExp):
+                continue
+            if not any(isinstance(x_, (ast.Attribute, ast.Call, ast.Subscript)) for x_ in ast.walk(g.elt)):
+                continue
+            pm = pm or {c_: p_ for p_ in ast.walk(fn.node) for c_ in ast.iter_child_nodes(p_)}
+            node, stored = g, None
+            for _ in range(6):
+                par = pm.get(node)
+                if isinstance(par, (ast.Tuple, ast.List, ast.Set, ast.Dict, ast.keyword, ast.Starred)):
+                    node = par
+                    continue
+                if isinstance(par, ast.Call) and node is not par.func:
+                    nm = par.func.attr if isinstance(par.func, ast.Attribute) else (par.func.id if isinstance(par.func, ast.Name) else '')
+                    if nm in LAZY_WRAPPERS:
+                        node = par
+                        continue
+                    if nm in ('append', 'add', 'insert', 'appendleft', 'setdefault', 'put') and isinstance(par.func, ast.Attribute):
+                        b_ = par.func.value
+                        while isinstance(b_, (ast.Subscript, ast.Attribute)) and not (isinstance(b_, ast.Attribute) and isinstance(b_.value, ast.Name) and b_.value.id == 'self'):
+                            b_ = b_.value
+                        if isinstance(b_, ast.Attribute):
+                            stored = 'put into self.%s by .%s(...)' % (b_.attr, nm)
+                    break
+                if isinstance(par, (ast.Assign, ast.AnnAssign)) and node is par.value:
+                    for t_ in (par.targets if isinstance(par, ast.Assign) else [par.target]):
+                        b_ = t_
+                        while isinstance(b_, ast.Subscript):
+                            b_ = b_.value
+                        if isinstance(b_, ast.Attribute) and isinstance(b_.value, ast.Name) and b_.value.id == 'self':
+                            stored = 'assigned to self.%s' % b_.attr
+                    break
+                break
+            if stored:
+                ctx.violation(rule, what, fn.site(g), 'the generator expression `%s` is %s unevaluated in %s: it reads %s only when somebody iterates it later (and can be iterated once)'
+                              % (ast.unparse(g)[:70], stored, fn.qn, ast.unparse(g.generators[0].iter)[:40]), key='%s|lazy-generator|%s' % (rule, fn.qn))
     # the other classic: a callable created per iteration that reads the loop variable when it is finally CALLED.  Collected into a list (or built by an eager
     # comprehension) and applied after the loop, every one of them sees the last element.
     stale_derived_values(ctx, rule, prefixes, what)
